@@ -101,6 +101,40 @@ VARIANTS = [
     V("ffill identity 0", ("C10",), "R-SCANTABLE", "aggregations.py", '    scan="ffill",\n    # Important: this must be NaN otherwise, ffill does not work.\n    identity=dtypes.NA,', '    scan="ffill",\n    # Important: this must be NaN otherwise, ffill does not work.\n    identity=0,', must_mention="ffill"),
     V("ravel sentinel restore deleted", ("C07",), "R-SENTINEL", "core.py", '    group_idx[nan_by_mask] = -1\n    return group_idx', '    return group_idx', must_mention="_ravel_factorized"),
     V("ravel sentinel mask from output", ("C07",), "R-SENTINEL", "core.py", '    nan_by_mask = reduce(np.logical_or, [(f == -1) for f in factorized])', '    nan_by_mask = group_idx == -1', must_mention="_ravel_factorized"),
+    # ---------------- R-CONTIG (C03), R-REINDEXDTYPE (C11)
+    V("tree nodes take every k-th block (strided parts)", ("C03",), "R-CONTIG", "dask_array_ops.py", '    parts = [list(partition_all(split_every.get(i, 1), range(n))) for (i, n) in enumerate(numblocks)]',
+      '    parts = [[tuple(range(j, n, -(-n // split_every.get(i, 1)))) for j in range(-(-n // split_every.get(i, 1)))] for (i, n) in enumerate(numblocks)]', must_mention="strided"),
+    V("tree nodes from a helper with strided ranges", ("C03",), "R-CONTIG", "dask_array_ops.py", '@lru_cache\ndef get_parts(split_every_items, chunks):',
+      'def _balanced_parts(n, size):\n    ngroups = -(-n // size)\n    return [tuple(range(i, n, ngroups)) for i in range(ngroups)]\n\n\n@lru_cache\ndef get_parts(split_every_items, chunks):',
+      expect="silent"),
+    V("tree nodes from a helper with strided ranges (used)", ("C03",), "R-CONTIG", "dask_array_ops.py", '    parts = [list(partition_all(split_every.get(i, 1), range(n))) for (i, n) in enumerate(numblocks)]',
+      '    parts = [(lambda n_, s_: [tuple(range(j, n_, -(-n_ // s_))) for j in range(-(-n_ // s_))])(n, split_every.get(i, 1)) for (i, n) in enumerate(numblocks)]', must_mention="strided"),
+    V("tree nodes reversed", ("C03",), "R-CONTIG", "dask_array_ops.py", '    parts = [list(partition_all(split_every.get(i, 1), range(n))) for (i, n) in enumerate(numblocks)]',
+      '    parts = [list(partition_all(split_every.get(i, 1), reversed(range(n)))) for (i, n) in enumerate(numblocks)]', must_mention="reorders"),
+    V("twin: contiguous parts by explicit ranges", ("C03",), "", "dask_array_ops.py", '    parts = [list(partition_all(split_every.get(i, 1), range(n))) for (i, n) in enumerate(numblocks)]',
+      '    parts = [[tuple(range(j, min(j + split_every.get(i, 1), n))) for j in range(0, n, split_every.get(i, 1))] for (i, n) in enumerate(numblocks)]', expect="silent"),
+    V("reindex_ widens integers for the fill value", ("C11",), "R-REINDEXDTYPE", "core.py", '    else:\n        new_dtype = array.dtype\n',
+      '    elif array.dtype.kind in "iu":\n        new_dtype = np.promote_types(array.dtype, np.min_scalar_type(fill_value))\n    else:\n        new_dtype = array.dtype\n', must_mention="dtype decision"),
+    V("reindex_ promotes for every fill", ("C11",), "R-REINDEXDTYPE", "core.py", '    if xrdtypes.NA == fill_value or isnull(fill_value):\n        new_dtype, fill_value = xrdtypes.maybe_promote(array.dtype)\n    else:\n        new_dtype = array.dtype\n',
+      '    new_dtype, promoted_fill = xrdtypes.maybe_promote(array.dtype)\n    if xrdtypes.NA == fill_value or isnull(fill_value):\n        fill_value = promoted_fill\n', must_mention="promotes the dtype for every fill"),
+    V("reindex kernel recomputes its dtype", ("C11",), "R-REINDEXDTYPE", "core.py", '        reindexed = reindexed.astype(dtype, copy=False)\n', '        reindexed = reindexed.astype(np.result_type(dtype, fill_value), copy=False)\n', must_mention="reindex_numpy"),
+    V("twin: reindex_ dtype through a differently named local", ("C11",), "", "core.py", '        new_dtype = array.dtype\n', '        new_dtype = array.dtype  # unchanged\n', expect="silent"),
+    # ---------------- R-LABELVALUE (C05, C07)
+    V("labels cast to the requested dtype before lookup", ("C05", "C07"), "R-LABELVALUE", "core.py", '            idx = np.searchsorted(expect, flat, sorter=sorter)', '            idx = np.searchsorted(expect, flat.astype(expect.dtype), sorter=sorter)', must_mention="searchsorted"),
+    V("NaN labels substituted before factorizing", ("C05", "C07"), "R-LABELVALUE", "core.py", '            idx, groups = pd.factorize(flat, sort=sort)', '            flat = np.nan_to_num(flat)\n            idx, groups = pd.factorize(flat, sort=sort)', must_mention="factorize"),
+    V("labels rounded before binning", ("C07",), "R-LABELVALUE", "core.py", '            idx = np.digitize(\n                flat,', '            idx = np.digitize(\n                np.round(flat, 6),', must_mention="digitize"),
+    V("twin: labels made contiguous before lookup", ("C05", "C07"), "", "core.py", '    flat = by.reshape(-1)\n    # integer labels', '    flat = np.ascontiguousarray(by).reshape(-1)\n    # integer labels', expect="silent"),
+    # ---------------- R-CODEWIDTH / R-IDENTITYCODES (C05, C07, C08, C19)
+    V("identity codes keep the labels' dtype", ("C07", "C08", "C19"), "R-CODEWIDTH", "core.py", '        idx = flat.astype(np.intp)\n', '        idx = flat.copy()\n', must_mention="_factorize_single"),
+    V("codes narrowed to int32 before offsetting", ("C08", "C07"), "R-CODEWIDTH", "core.py", '        group_idx, size = offset_labels(group_idx.reshape(by[0].shape), ngroups)', '        group_idx, size = offset_labels(group_idx.reshape(by[0].shape).astype(np.int32), ngroups)', must_mention="factorize_"),
+    V("empty-bins codes created without dtype", ("C07",), "R-CODEWIDTH", "core.py", '            idx = np.zeros_like(flat, dtype=np.intp) - 1', '            idx = np.zeros_like(flat) - 1', must_mention="_factorize_single"),
+    V("identity fast path for any RangeIndex start", ("C05", "C07"), "R-IDENTITYCODES", "core.py", '        and expect.start == 0\n', '', must_mention="start"),
+    V("identity fast path for any RangeIndex step", ("C05", "C07"), "R-IDENTITYCODES", "core.py", '        and expect.step == 1\n', '', must_mention="step"),
+    V("identity fast path for float labels", ("C05", "C07"), "R-IDENTITYCODES", "core.py", '        and flat.dtype.kind in "iu"\n', '', must_mention="integers"),
+    V("identity fast path masks one side only", ("C05", "C07"), "R-IDENTITYCODES", "core.py", '        idx[(idx < 0) | (idx >= len(expect))] = -1', '        idx[idx >= len(expect)] = -1', must_mention="one-sided"),
+    V("twin: identity codes via np.asarray(dtype=intp).copy()", ("C05", "C07", "C08", "C19"), "", "core.py", '        idx = flat.astype(np.intp)\n', '        idx = np.asarray(flat, dtype=np.intp).copy()\n', expect="silent"),
+    V("twin: identity guard inlined in the if", ("C05", "C07"), "", "core.py", '    if identity_codes:\n', '    if isinstance(expect, pd.RangeIndex) and expect.start == 0 and expect.step == 1 and flat.dtype.kind in "iu":\n', expect="silent"),
+    V("twin: upper bound via expect[-1]", ("C05", "C07"), "", "core.py", '        idx[(idx < 0) | (idx >= len(expect))] = -1', '        idx[idx < 0] = -1\n        idx[idx > expect[-1]] = -1', expect="silent"),
     V("offset sentinel restore deleted", ("C08",), "R-SENTINEL", "core.py", '    offset[labels == -1] = -1\n', '', must_mention="offset_labels"),
     V("label axes always ascending", ("C08",), "R-COPERMUTE", "core.py", 'tuple(-array.ndim + ax + by_.ndim for ax in axis_))', 'tuple(ax for ax in range(by_.ndim) if ax + array.ndim - by_.ndim in axis_))', must_mention="groupby_reduce"),
     V("twin: label axes bound to a local first", ("C08",), "", "core.py", '        by_ = _move_reduce_dims_to_end(by_, tuple(-array.ndim + ax + by_.ndim for ax in axis_))', '        by_axes_ = tuple(-array.ndim + ax + by_.ndim for ax in axis_)\n        by_ = _move_reduce_dims_to_end(by_, by_axes_)', expect="silent"),
